@@ -186,7 +186,12 @@ def _task(ob_name, job_idx, prefix, twin_offset):
                 else:
                     expected = _norm(evalm(m, rec["result"]))
                     st, pl = _concrete_run(ob, job, m, "twin")
-                    if st == "violation":
+                    if st == "violation" and (pl.extra or {}).get("concrete_only"):
+                        # assertions that only exist on concrete witnesses (real json.dumps/loads on real floats):
+                        # the concrete run on the unstubbed code IS the replay
+                        out["violations"].append(dict(kind=pl.kind, message=pl.message, model=jsonable(m), extra=jsonable(pl.extra), job=jsonable(job),
+                                                      reproduced=True, concrete=dict(kind=pl.kind, message=pl.message), raw_model={k: str(v) for k, v in m.items()}))
+                    elif st == "violation":
                         out["errors"].append(f"twin: concrete run violates ({pl}) where symbolic path proved the property; job={job} model={m}")
                     elif st != "ok":
                         out["errors"].append(f"twin: concrete run status {st}; job={job} model={m}")
